@@ -124,6 +124,8 @@ SNIPPETS = [
     "x = torch.zeros(3, dtype=a.dtype); x[torch.tensor([True, False, True])] = v; out = x", "x = torch.zeros(3, 2, dtype=a.dtype); x[torch.tensor([False, True, True])] = a[:, :2]; out = x",
     "out = list(a.stride()) + list(a.T.stride())", "out = torch.arange(6, dtype=a.dtype).as_strided((3, 2), (1, 3))", "out = a.reshape(-1).as_strided(a.T.shape, a.T.stride())",
     "x = a.clone().reshape(-1); y = x.as_strided((2, 2), (1, 2)); y += 1; out = x", "out = a.reshape(-1).view(3, 2).T.contiguous().stride()[0]",
+    "out = torch.topk(a.masked_fill(a > 0, float('inf')), k=2, largest=False)[0]", "out = torch.sort(a.masked_fill(a < 0, float('-inf')), dim=1)[0]",
+    "g = a @ a.T; out = torch.topk(g.masked_fill(torch.eye(2, dtype=torch.bool), float('inf')), k=1, largest=False)[0]", "out = torch.sort(a.masked_fill(a > 0, float('inf')), dim=1, descending=True)[0]",
     "x = torch.zeros(4, dtype=a.dtype); x[torch.tensor([0, 2])] = 1.0; out = x", "x = torch.zeros(2, 3, dtype=a.dtype); x[:, [0, 2]] = v.unsqueeze(1); out = x",
     "x = torch.zeros(3, 2, dtype=a.dtype); x[torch.tensor([2, 0])] = a[:, :2].T[:2]; out = x", "x = torch.zeros(3, dtype=a.dtype); x[torch.tensor([1])] += 2.0; out = x",
     "x = torch.zeros(2, dtype=a.dtype); x[torch.topk(v, k=1, largest=False)[1]] = 1.0; out = x / 1", "x = torch.zeros(3, dtype=a.dtype); x[torch.topk(w, k=2, largest=False)[1]] = 1.0; out = x / 2",
